@@ -261,6 +261,92 @@ fn const_init_has_division(s: &str, toks: &[tok::Tok]) -> bool {
     false
 }
 
+/// The initialiser of a constant contains something that executes: a division, a loop,
+/// or a call (`name(`); constant initialisers are run while the package is compiled
+fn const_init_runs_code(s: &str, toks: &[tok::Tok]) -> bool {
+    let text = |t: &tok::Tok| &s[t.start..t.end];
+    let mut i = 0;
+    while i < toks.len() {
+        if toks[i].kind == Kind::Keyword && text(&toks[i]) == "const" {
+            let mut depth = 0i32;
+            let mut j = i + 1;
+            let mut after_eq = false;
+            while j < toks.len() {
+                let t = text(&toks[j]);
+                match t {
+                    "{" | "(" | "[" => depth += 1,
+                    "}" | ")" | "]" => depth -= 1,
+                    ";" if depth <= 0 => break,
+                    "=" if depth <= 0 => after_eq = true,
+                    _ => {}
+                }
+                if after_eq {
+                    if matches!(t, "/" | "%" | "/=" | "%=" | "while" | "for") {
+                        return true;
+                    }
+                    if toks[j].kind == Kind::Ident && toks.get(j + 1).is_some_and(|n| text(n) == "(") {
+                        return true;
+                    }
+                }
+                j += 1;
+            }
+            i = j;
+        }
+        i += 1;
+    }
+    false
+}
+
+/// `enum Name {}` / `enum Name[T] {}`: an enum without variants
+fn empty_enum_declared(s: &str, toks: &[tok::Tok]) -> bool {
+    let text = |t: &tok::Tok| &s[t.start..t.end];
+    for i in 0..toks.len() {
+        if text(&toks[i]) == "enum" {
+            let mut j = i + 2;
+            if toks.get(j).is_some_and(|t| text(t) == "[") {
+                while j < toks.len() && text(&toks[j]) != "]" {
+                    j += 1;
+                }
+                j += 1;
+            }
+            if toks.get(j).is_some_and(|t| text(t) == "{") && toks.get(j + 1).is_some_and(|t| text(t) == "}") {
+                return true;
+            }
+        }
+    }
+    false
+}
+
+/// A value whose element / payload type nothing constrains: `[]` iterated or indexed,
+/// an untyped `None` (bound by `let` without annotation, or under `?`)
+fn open_element_source(s: &str, toks: &[tok::Tok]) -> bool {
+    let text = |t: &tok::Tok| &s[t.start..t.end];
+    for i in 0..toks.len() {
+        let t = text(&toks[i]);
+        // `in []`, `= [];`, `[].`, `accept []`
+        if t == "[" && toks.get(i + 1).is_some_and(|n| text(n) == "]") {
+            let prev = if i > 0 { text(&toks[i - 1]) } else { "" };
+            let next = toks.get(i + 2).map(|n| text(n)).unwrap_or("");
+            if matches!(prev, "in" | "=" | "accept" | "reject" | "[" | ",") || next == "." {
+                return true;
+            }
+        }
+        // `= None;` / `None?`
+        if t == "None" {
+            let prev = if i > 0 { text(&toks[i - 1]) } else { "" };
+            let prev2 = if i > 2 { text(&toks[i - 2]) } else { "" };
+            let next = toks.get(i + 1).map(|n| text(n)).unwrap_or("");
+            let after_eq = prev == "=" || (prev == "." && prev2 == "Option" && i > 2 && text(&toks[i - 3]) == "=");
+            // an annotated `let x: T = None` constrains it
+            let annotated = (0..i).rev().take_while(|k| text(&toks[*k]) != ";" && text(&toks[*k]) != "{").any(|k| text(&toks[k]) == ":");
+            if (after_eq && !annotated) || next == "?" {
+                return true;
+            }
+        }
+    }
+    false
+}
+
 /// Features of the source text(s) of an input
 pub fn features(s: &str) -> Value {
     let toks = tok::tokens(s);
@@ -327,6 +413,9 @@ pub fn features(s: &str) -> Value {
         "never_type_written": never_type_written(s, &toks),
         "loop_kw": has("while") || has("for"),
         "const_init_has_division": const_init_has_division(s, &toks),
+        "const_init_runs_code": const_init_runs_code(s, &toks),
+        "empty_enum_declared": empty_enum_declared(s, &toks),
+        "open_element_source": open_element_source(s, &toks),
     })
 }
 
@@ -404,16 +493,72 @@ pub fn may_die(s: &str) -> bool {
     }
     // constant initialisers are evaluated while compiling
     if s.contains("const ") && (s.contains('/') || s.contains('%')) {
-        return const_init_has_division(s, &tok::tokens(s));
+        if const_init_has_division(s, &tok::tokens(s)) {
+            return true;
+        }
+    }
+    // ... and may loop, recurse or call aborting built-ins
+    if s.contains("const ") && (s.contains("while") || s.contains("for ") || s.contains('(')) {
+        return const_init_runs_code(s, &tok::tokens(s));
     }
     false
+}
+
+/// number of `let aK = .. a(K-1) .. a(K-1) ..;` lines (each mentions the previous binding twice)
+fn shared_let_chain(s: &str) -> u64 {
+    let mut n = 0;
+    for k in 0..200u64 {
+        let prev = format!("a{k}");
+        let decl = format!("let a{} = ", k + 1);
+        match s.find(&decl) {
+            Some(i) => {
+                let rest = &s[i + decl.len()..];
+                let stmt = &rest[..rest.find(';').unwrap_or(rest.len())];
+                let uses = stmt.match_indices(&prev).filter(|(p, _)| !stmt[p + prev.len()..].starts_with(|c: char| c.is_ascii_digit())).count();
+                if uses >= 2 {
+                    n += 1;
+                } else {
+                    break;
+                }
+            }
+            None => break,
+        }
+    }
+    n
+}
+
+/// a file stem / directory name / module name of the input contains a dot
+fn input_has_dotted_module(input: &Value) -> bool {
+    fn spec(n: &Value) -> bool {
+        n["module"].as_str().is_some_and(|m| m.contains('.'))
+            || n["children"].as_array().is_some_and(|a| a.iter().any(spec))
+    }
+    if spec(&input["spec"]) {
+        return true;
+    }
+    input["files"].as_array().is_some_and(|a| {
+        a.iter().any(|f| {
+            f["path"].as_str().is_some_and(|p| {
+                p.split('/').any(|comp| {
+                    let stem = comp.strip_suffix(".roto").unwrap_or(comp);
+                    stem.contains('.')
+                })
+            })
+        })
+    })
 }
 
 fn is_stack_death(class: &str) -> bool {
     class == "signal:SIGABRT" || class == "signal:SIGSEGV"
 }
 
-pub const MATCHERS: [&str; 14] = [
+pub const MATCHERS: [&str; 20] = [
+    "const_initialiser_code_dies_at_compile_time",
+    "runtime_function_signature_per_call_site",
+    "unconstrained_type_variable_in_record",
+    "empty_enum_declared",
+    "type_dag_expanded_as_tree",
+    "dotted_module_name_duplicate_symbol",
     "loop_with_diverging_body",
     "const_division_by_zero_at_compile_time",
     "module_ident_span_outside_file",
@@ -520,6 +665,49 @@ pub fn matches_parts(matcher: &str, class: &str, c: &Value) -> bool {
         // N12: constant initialisers run while compiling; integer division traps (C10) kill the compiling process
         "const_division_by_zero_at_compile_time" => {
             (class == "signal:SIGILL" || class == "signal:SIGFPE") && on("const_init_has_division")
+        }
+        // N12 widened (audit V8): a trap / abort / hang / stack overflow raised by code that a
+        // constant initialiser runs at compile time
+        "const_initialiser_code_dies_at_compile_time" => {
+            (class == "hang" || matches!(class, "signal:SIGILL" | "signal:SIGFPE" | "signal:SIGABRT" | "signal:SIGSEGV"))
+                && on("const_init_runs_code")
+        }
+        // audit V3: the import signature of a generic runtime function is stored per function
+        // but computed per call site; a call site whose element type has no layout drops an argument
+        "runtime_function_signature_per_call_site" => {
+            class.starts_with("panic:src/codegen/mod.rs:")
+                && msg.contains("mismatched argument count")
+                && (on("open_element_source") || on("empty_enum_declared"))
+        }
+        // audit V2: a record field whose type stays an unconstrained inference variable
+        "unconstrained_type_variable_in_record" => {
+            class.starts_with("panic:src/lir/lower.rs:")
+                && msg.starts_with("called `Option::unwrap()` on a `None` value")
+                && on("open_element_source")
+                && !on("empty_enum_declared")
+                && !on("never_type_written")
+        }
+        // audit V4: `enum E {}` is accepted; values of it have no layout and five lowering sites panic
+        "empty_enum_declared" => {
+            on("empty_enum_declared")
+                && !on("never_type_written")
+                && ((class.starts_with("panic:src/lir/lower.rs:") && msg.starts_with("called `Option::unwrap()` on a `None` value"))
+                    || (class.starts_with("panic:src/lir/lower/drops.rs:") && msg.starts_with("called `Option::unwrap()` on a `None` value"))
+                    || (class.starts_with("panic:src/lir/lower/clones.rs:") && msg.starts_with("called `Option::unwrap()` on a `None` value"))
+                    || (class.starts_with("panic:src/codegen/mod.rs:")
+                        && (msg.starts_with("Internal compiler error: did not find Var") || msg.starts_with("no entry found for key"))))
+        }
+        // audit V5: the type DAG is expanded as a tree (TypeInfo::convert, occurs, ==, display)
+        "type_dag_expanded_as_tree" => {
+            let g = &c["generated_by"];
+            (class == "hang" || class == "signal:SIGABRT" || class == "signal:SIGSEGV" || class.starts_with("exit:"))
+                && g["repeater"].as_str().is_some_and(|r| r.starts_with("share:"))
+                && g["n"].as_u64().is_some_and(|n| n >= 13)
+                && shared_let_chain(c["src"].as_str().unwrap_or("")) >= 13
+        }
+        // audit V6: a module called `a.b` and the module `b` inside `a` give their items the same symbol
+        "dotted_module_name_duplicate_symbol" => {
+            class.starts_with("panic:src/codegen/mod.rs:") && msg.contains("DuplicateDefinition") && input_has_dotted_module(&c["input"])
         }
         // N5
         "eq_on_zero_sized_field" => {
